@@ -46,6 +46,8 @@ func coreMain(args []string) error {
 		return coreCmdRace(m)
 	case "exprrows":
 		return coreExprRows(m)
+	case "widearith":
+		return coreWideArith(m)
 	case "astone":
 		return coreASTOne(m)
 	case "concurrent":
@@ -180,6 +182,7 @@ type behStep struct {
 	What   string          `json:"what"` // rebind: "f" | "c"
 	Name   string          `json:"name"`
 	Kind   string          `json:"kind"`
+	Node   string          `json:"node"` // snaphand
 	H      int             `json:"h"`
 	Snap   json.RawMessage `json:"snap"`
 	Ok     bool            `json:"ok"`
@@ -333,6 +336,12 @@ func coreReplay(m map[string]string) error {
 					diffs[bi] = &replayDiff{Case: c.ID, Beh: bidx, Step: si, Field: "snapshot", Exp: st.Snap, Got: at, Layout: l.describe(), Texts: texts}
 					return
 				}
+				continue
+			}
+			if st.Ev == "snaphand" {
+				// the host writes a snapshot by hand: only the node, no maps at all
+				sn := &ysgo.Snapshot{CurrentNode: st.Node}
+				snaps[st.H] = taken{sn, h.readSnap(sn)}
 				continue
 			}
 			if st.Ev == "restore" {
